@@ -100,6 +100,12 @@ func (e *Engine) pkgByNameFrom(from *types.Package, name string) *types.Package 
 	return e.pkgByName(name)
 }
 
+// syntaxDeps: dependency packages loaded with syntax so that their functions
+// have SSA bodies (see Engine.inlineDeps).
+var syntaxDeps = map[string]bool{
+	"github.com/btcsuite/btcd/wire": true,
+}
+
 func loadEngine(repo string, patterns []string) (*Engine, error) {
 	env := append(os.Environ(), "GOFLAGS=-mod=mod", "GOPROXY=off", "GOSUMDB=off", "GOTOOLCHAIN=local")
 	// pass 1 (cheap): the module-internal import closure of the requested packages
@@ -118,6 +124,13 @@ func loadEngine(repo string, patterns []string) (*Engine, error) {
 	roots := map[string]bool{}
 	packages.Visit(pre, nil, func(p *packages.Package) {
 		if modPath != "" && (p.PkgPath == modPath || strings.HasPrefix(p.PkgPath, modPath+"/")) {
+			roots[p.PkgPath] = true
+		}
+	})
+	// dependency packages whose (small, loop-free) constructors are followed need
+	// their syntax too; only those actually imported are added
+	packages.Visit(pre, nil, func(p *packages.Package) {
+		if syntaxDeps[p.PkgPath] {
 			roots[p.PkgPath] = true
 		}
 	})
@@ -166,10 +179,8 @@ func loadEngine(repo string, patterns []string) (*Engine, error) {
 	})
 	if len(pkgs) > 0 {
 		e.fset = pkgs[0].Fset
-		if pkgs[0].Module != nil {
-			e.modulePath = pkgs[0].Module.Path
-		}
 	}
+	e.modulePath = modPath
 	if e.modulePath == "" {
 		e.modulePath = "github.com/elementsproject/peerswap"
 	}
@@ -579,6 +590,8 @@ func (x *Exec) wellFormed(v Val, st *State) {
 		switch {
 		case l.isRef():
 			x.c.Assume(Op("bvult", SBool, v.L[i], st.ctr))
+		case strings.HasSuffix(l.Path, "#id") && l.Sort == SBV(64):
+			x.c.Assume(olderSliceID(v.L[i], st.sctr, st.ctr))
 		case strings.HasSuffix(l.Path, "#len"):
 			x.c.Assume(Op("bvsle", SBool, BVLit(0, 64), v.L[i]))
 			if i+1 < len(sh) && strings.HasSuffix(sh[i+1].Path, "#cap") {
